@@ -40,6 +40,10 @@ Oracle, clause by clause (S = sentence of the property statement)
     SI <= log10(phi P) when exhausted.
  Derived from S1 (quantifier: "initial partial pressures"): the moles a new GAS_PHASE adds to the system (element totals)
     equal V / V_m,EOS(sum p_i, T_gas, x = p_i / sum p_i).
+ Several gas phases defined in one simulation (kind "multi"): each phase, used later with its own solution, obeys S1-S5 and the
+    initial-moles relation with ITS OWN pressures, temperature and volume.  Components with zero initial pressure are not generated
+    there (recorded finding: a listed but absent component keeps the partial pressure of an earlier calculation in the
+    fixed-pressure sum, replays/C19/known/stale-absent-component-pressure.json).
  Domain: rows whose reported total pressure is outside 0.01..1000 atm are counted and skipped (quantifier of the property).
 
 Solver noise (what the tolerances absorb besides the property's numbers): the engine converges on absolute mass-balance
@@ -63,7 +67,11 @@ RULE = ("Hypothesis-generated batch reactions of a generated solution (phreeqc.d
         "fixed pressure or fixed volume, total pressure log-uniform over the decades 0.01-1000 atm, initial partial pressures as integer-"
         "weighted shares (some zero, under-filled, or an empty phase over an acid carbonate solution) or -equilibrate, volume 0.01-20 L "
         "(<= ~20 mol gas), optional minerals / REACTION steps / REACTION_TEMPERATURE sequences of 1-3 temperatures, or (b) 1-3 gases as "
-        "EQUILIBRIUM_PHASES with target log10 P in -2..3.  KNOBS -convergence_tolerance 1e-12 in every input.  Oracle (vp/eos.py, "
+        "EQUILIBRIUM_PHASES with target log10 P in -2..3, or (c) 2-4 NEW gas phases with different user numbers (own composition, pressure, "
+        "temperature, volume, fixed P / fixed V, ideal or PR per phase, optional -equilibrate with one of two solutions, blocks in "
+        "shuffled order) defined in ONE simulation and then each reacted in its own simulation with the solution it names, every "
+        "phase judged by the single-phase clauses incl. the EOS-based initial moles (per-entity data must not leak between "
+        "definitions).  KNOBS -convergence_tolerance 1e-12 in every input.  Oracle (vp/eos.py, "
         "independent Peng-Robinson from database text): see module docstring S1-S6.  Non-trivial = a gas exists and (PR with "
         "|ln phi| > 1e-3 for some checked component, or >= 2 gases with moles > 0); distinct by SHA-256 of the case")
 ASSUMPTIONS = ["Peng-Robinson (1976) equations and van der Waals one-fluid mixing as quoted in the database/PHREEQC documentation",
